@@ -44,10 +44,12 @@ Definition build_isos (l : list iso_src) : list (N * iso) :=
   fold_left (fun acc i => assoc_insert (i_key i) (mkI (i_mass i) (i_ab i) (i_neutrons i) (i_shift i)) acc) l [].
 
 Definition build_elem (s : elem_src) : elem :=
-  let is := build_isos (s_isos s) in
+  let early := build_isos (s_isos s) in
+  let is := fold_left (fun acc i => assoc_insert (i_key i) (mkI (i_mass i) (i_ab i) (i_neutrons i) (i_shift i)) acc) (s_late s) early in
   if s_indexed s then
-    let mx := calc_max 0 is in
-    let mn := calc_min 0 is in
+    (* index_isotopes sees only what has been inserted so far *)
+    let mx := calc_max 0 early in
+    let mn := calc_min 0 early in
     mkE (s_sym s) is (s_mai s) (s_mam s) (s_number s) mn mx
   else mkE (s_sym s) is (s_mai s) (s_mam s) (s_number s) (s_min0 s) (s_max0 s).
 
@@ -202,13 +204,13 @@ Definition gen_elem (e : nist_elem) : elem_src :=
       let shift_of g := Z.of_N (g_num g) - Z.of_N (g_num top) in
       let number := fold_left (fun acc g => if shift_of g =? 0 then g_num g else acc) rest 0%N in
       mkElem (n_sym e) (g_num top) (g_mass6 top) number 0 0 true
-             (map (fun g => mkIso (g_num g) (g_mass6 g) (g_ab6 g) (g_num g) (shift_of g)) rest)
+             (map (fun g => mkIso (g_num g) (g_mass6 g) (g_ab6 g) (g_num g) (shift_of g)) rest) []
   | None =>
       match last_opt refs with
       | Some r => let g := to_gen r in
-                  mkElem (n_sym e) 0 (g_mass6 g) 0 0 0 true [mkIso (g_num g) (g_mass6 g) (g_ab6 g) (g_num g) 0]
+                  mkElem (n_sym e) 0 (g_mass6 g) 0 0 0 true [mkIso (g_num g) (g_mass6 g) (g_ab6 g) (g_num g) 0] []
       | None => (* Isotope::default(): all zero *)
-                  mkElem (n_sym e) 0 0 0 0 0 true [mkIso 0 0 0 0 0]
+                  mkElem (n_sym e) 0 0 0 0 0 true [mkIso 0 0 0 0 0] []
       end
   end.
 
